@@ -191,17 +191,17 @@ def replay(rec, ctx, np, tmp, classes, fmts):
                         msgs.append(('invalid', 'invalid samples at %s, written at %s' % (np.argwhere(np.isnan(b)).tolist(), np.argwhere(np.isnan(a)).tolist())))
                     else:
                         v = np.isfinite(a)
-                        amax = float(np.abs(a[v]).max()) if v.any() else 0.
+                        amax = float(core.maxabs(a[v])) if v.any() else 0.
                         step = step_of(fmt, path, amax, np) if v.any() else 1.0
                         if step is None:
                             msgs.append(('step', 'the file declares a quantisation step beyond the format range'))
-                        elif v.any() and float(np.abs(b[v] - a[v]).max()) > rec.get('gen', 1) * step * 1.0001 + 1e-12 * amax:   # one step per quantisation
+                        elif v.any() and float(core.maxabs(b[v] - a[v])) > rec.get('gen', 1) * step * 1.0001 + 1e-12 * amax:   # one step per quantisation
                             # orientation error or scale error?  distinct values tell them apart
                             kind = 'orientation' if cls != 'constant' and any(
                                 np.allclose(np.nan_to_num(t), np.nan_to_num(a), atol=step * 1.0001 + 1e-12 * amax)
                                 for t in (np.nan_to_num(b)[::-1], np.nan_to_num(b)[:, ::-1], np.nan_to_num(b)[::-1, ::-1])) else 'value'
                             msgs.append((kind, 'max error %.6g exceeds one quantisation step %.6g (wrote %s, read %s)' % (
-                                float(np.abs(b[v] - a[v]).max()), step, a.tolist(), b.tolist())))
+                                float(core.maxabs(b[v] - a[v])), step, a.tolist(), b.tolist())))
                     if out['dx'] is not None and (abs(out['dx'] - dx) > 1e-6 * dx or abs(out['wvl'] - wvl) > 1e-6 * wvl):
                         msgs.append(('dx-wavelength', 'dx %r / wavelength %r, wrote %r / %r' % (out['dx'], out['wvl'], dx, wvl)))
                 if out['warned']:
